@@ -12,6 +12,7 @@ import json
 
 from ..core import Check, Viol, drive, generic_replay, rng_for
 from ..run import Case
+from ..stubs import StubSet
 
 PID = "C15"
 REACH = ["get_api", "_get_nearest_init_dirs", "_run_stub_generator", "_get_mypy_asts"]
@@ -80,6 +81,18 @@ def build_tree(rng, idx: int):
         user = f"uses_fixture_{idx}"
         files[f"src/pk/{user}.py"] = f"from {d.replace('/', '.')} import {tok}, {cls}\n\n\ndef fn_user_{idx}(x: int = 1) -> int:\n    return {tok}(x)\n\n\nclass ClsUser{idx}:\n    y: int = 2\n"
         gt.append({"rel": f"src/pk/{user}.py", "module_id": f"pk/{user}", "token": f"fn_user_{idx}", "cls": f"ClsUser{idx}", "filtered": False, "proper_package": True})
+    # regular modules (in the package root and in a sub-package) that import from plain MODULES inside filtered
+    # directories, directly and through another filtered module: the type checker loads those modules, the tool must not
+    fmods = [g for g in gt if g["filtered"] and not g.get("is_init") and g["proper_package"]]
+    if fmods:
+        for k, g in enumerate(rng.sample(fmods, min(2, len(fmods)))):
+            dotted = g["module_id"].replace("/", ".")
+            where = ["pk"] if k == 0 else ["pk", "regular_sub"]
+            user = f"imports_filtered_{idx}_{k}"
+            if k == 1:
+                files.setdefault("src/pk/regular_sub/__init__.py", "")
+            files["/".join(["src", *where, user + ".py"])] = f"from {dotted} import {g['token']}, {g['cls']}\n\n\ndef fn_imp_{idx}_{k}(x: {g['cls']} | None = None) -> int:\n    return {g['token']}(1)\n\n\nclass ClsImp{idx}x{k}({g['cls']}):\n    z: int = 3\n"
+            gt.append({"rel": "/".join(["src", *where, user + ".py"]), "module_id": "/".join([*where, user]), "token": f"fn_imp_{idx}_{k}", "cls": f"ClsImp{idx}x{k}", "filtered": False, "proper_package": True})
     return files, gt
 
 
@@ -117,11 +130,20 @@ def make_judge(chk: Check):
         api = json.loads(rec["tree"][jf[0]]) if jf else {"modules": [], "functions": []}
         fn_names = {f["name"] for f in api.get("functions", [])}
         mod_ids = {m["id"] for m in api.get("modules", [])}
-        stub_text = "\n".join(v for k, v in rec["tree"].items() if k.endswith(".sdsstub"))
+        # declarations the stubs contain: functions, and classes that were analysed (a class that regular code merely
+        # USES gets a bodyless placeholder 'class X' without constructor parentheses, like a class of another library;
+        # that is a consequence of the reference in the regular file, not a contribution of the filtered file)
+        ss = StubSet(rec["tree"])
+        for e in ss.errors.values():
+            chk.discarded[f"unparsable-stub:{e.rule}"] += 1
+        declared = set()
+        for _rel, _m, d in ss.all_decls():
+            if d.kind == "fun" or (d.kind == "class" and (d.params is not None or d.members)):
+                declared.add(d.pyname)
         for g in gt:
             kind = _dirkind(g["rel"])
             in_json = g["token"] in fn_names
-            in_stub = g["token"] in stub_text or g["cls"] in stub_text
+            in_stub = g["token"] in declared or g["cls"] in declared
             if g["filtered"] and not tr:
                 if in_json or (g["module_id"] in mod_ids and not g.get("is_init")) or (g.get("is_init") and any(c["id"].startswith(g["module_id"] + "/") for c in api.get("classes", []))):
                     viols.append(Viol("filtered-file-in-json", kind, {"file": g["rel"], "flag": tr}))
@@ -173,7 +195,7 @@ def main(tier: str, seed: int) -> int:
     judge = make_judge(chk)
     drive(chk, cases, judge, per_proc=2)
     chk.assumptions = [
-        "declarations in test/docs directories are never referenced or re-exported from other modules",
+        "regular modules may import and use classes / functions of files in test/docs directories (never re-export them); a class that is merely used gets a bodyless placeholder 'class X' like a class of another library - that is attributed to the using file, not counted as a contribution of the filtered file; analysed classes are recognised by their constructor parentheses / members",
         "every directory of the tree is a proper package (has __init__.py)",
         "the workspace path itself contains no part named test, tests or docs (the tool filters on absolute path parts)",
     ]
